@@ -650,3 +650,85 @@ Section SubgraphBound.
         rewrite M. cbn [PathEncComplete.indq]. ring.
   Qed.
 End SubgraphBound.
+
+(* ---------------------------------------------------------------------------------------------- *)
+(* packaged statements                                                                            *)
+Definition restrict_ignore (VH : list node) (ign : list edge) : list edge :=
+  filter (fun e => memn (fst e) VH && memn (snd e) VH) ign.
+
+(* the premises about the caller's DAG and its topological order *)
+Definition dag_with_order (V : list node) (E : list edge) (s t : node) (topo : list node) : Prop :=
+  ~ In s V /\ ~ In t V /\ s <> t /\ (forall e, In e E -> In (fst e) V /\ In (snd e) V) /\
+  (forall u v, In (u, v) E -> posn topo u < posn topo v) /\ (forall v, In v V <-> In v topo).
+
+Theorem subgraph_restriction (V : list node) (E : list edge) (s t : node) (f : edge -> Z) (ign : list edge)
+        (topo : list node) (left right k : nat) (P : N -> list node) (w : N -> Q) :
+  dag_with_order V E s t topo ->
+  decomposition (sg_inst V E s t f ign k) P w ->
+  let VH := fst (window_subgraph topo left right E) in let EH := snd (window_subgraph topo left right E) in
+  exists (kH : nat) (PH : N -> list node) (wH : N -> Q),
+    kH <= k /\ decomposition (sg_inst VH EH s t f (restrict_ignore VH ign) kH) PH wH.
+Proof.
+  intros (Hs & Ht & Hst & HE & Htopo & Hperm) HD VH EH.
+  exists (k' topo left right k P), (P' s t topo left right k P), (w' ign topo left right k P w).
+  destruct (subgraph_decomposition V E s t f ign topo left right k P w Hs Ht Hst HE Htopo
+              (fun v Hv => proj1 (Hperm v) Hv) (fun v Hv => proj2 (Hperm v) Hv) HD) as [D L].
+  split; [exact L|exact D].
+Qed.
+
+(* the lower bound is sound: if the window subgraph has no decomposition into fewer than lbH paths, neither has G *)
+Theorem subgraph_scanning_bound (V : list node) (E : list edge) (s t : node) (f : edge -> Z) (ign : list edge)
+        (topo : list node) (left right k lbH : nat) (P : N -> list node) (w : N -> Q) :
+  dag_with_order V E s t topo ->
+  let VH := fst (window_subgraph topo left right E) in let EH := snd (window_subgraph topo left right E) in
+  (forall j, j < lbH -> ~ exists PH wH, decomposition (sg_inst VH EH s t f (restrict_ignore VH ign) j) PH wH) ->
+  decomposition (sg_inst V E s t f ign k) P w -> lbH <= k.
+Proof.
+  intros HG VH EH Hmin HD.
+  destruct (subgraph_restriction V E s t f ign topo left right k P w HG HD) as (kH & PH & wH & Hle & DH).
+  destruct (Nat.le_gt_cases lbH kH) as [L|L]; [lia|]. exfalso. apply (Hmin kH L). exists PH, wH. exact DH.
+Qed.
+
+Lemma sg_inst_nil V E s t f k : sg_inst V E s t f [] k = e2e_inst V E s t f k.
+Proof. unfold sg_inst, e2e_inst. rewrite app_nil_r. reflexivity. Qed.
+
+(* the same for the instance without an ignore list (EndToEnd2.e2e_inst) *)
+Theorem subgraph_scanning_bound_e2e (V : list node) (E : list edge) (s t : node) (f : edge -> Z)
+        (topo : list node) (left right k lbH : nat) (P : N -> list node) (w : N -> Q) :
+  dag_with_order V E s t topo ->
+  let VH := fst (window_subgraph topo left right E) in let EH := snd (window_subgraph topo left right E) in
+  (forall j, j < lbH -> ~ exists PH wH, decomposition (e2e_inst VH EH s t f j) PH wH) ->
+  decomposition (e2e_inst V E s t f k) P w -> lbH <= k.
+Proof.
+  intros HG VH EH Hmin HD. rewrite <- sg_inst_nil in HD.
+  apply (subgraph_scanning_bound V E s t f [] topo left right k lbH P w HG); [|exact HD].
+  intros j Hj. change (restrict_ignore (fst (window_subgraph topo left right E)) []) with (@nil edge). rewrite sg_inst_nil. apply Hmin. exact Hj.
+Qed.
+
+(* ---- a concrete instance: 0 -> 1 -> 2 -> 3 and 0 -> 2, window {1} ---- *)
+Definition sbV : list node := [0; 1; 2; 3]%N.
+Definition sbE : list edge := [(0, 1); (1, 2); (2, 3); (0, 2)]%N.
+Definition sbf (e : edge) : Z := if edge_eqb e (2, 3)%N then 2%Z else 1%Z.
+Definition sbP (i : N) : list node := if (i =? 0)%N then [10; 0; 1; 2; 3; 11]%N else [10; 0; 2; 3; 11]%N.
+Definition sbw (_ : N) : Q := 1%Q.
+
+Lemma sb_dag : dag_with_order sbV sbE 10%N 11%N sbV.
+Proof.
+  split; [cbn; intuition discriminate|]. split; [cbn; intuition discriminate|]. split; [discriminate|]. split.
+  - intros e He. cbn in He. intuition (subst; cbn; tauto).
+  - split; [|tauto]. intros u v He. cbn in He. intuition (try discriminate); match goal with H : (_, _) = (_, _) |- _ => injection H as <- <- end; vm_compute; lia.
+Qed.
+
+Lemma sb_decomposition : decomposition (sg_inst sbV sbE 10%N 11%N sbf [] 2) sbP sbw.
+Proof.
+  split; [|split].
+  - intros i Hi. cbn in Hi. destruct Hi as [<-|[<-|[]]]; (split; [reflexivity|]; split; [reflexivity|]; split;
+      [repeat constructor; cbn; intuition discriminate|intros e He; vm_compute in He; vm_compute; tauto]).
+  - intros i _. split; [vm_compute; split; discriminate|]. intros _. exists 1%Z. reflexivity.
+  - intros e He Hig. vm_compute in He.
+    destruct He as [<-|[<-|[<-|[<-|He]]]]; try (vm_compute; reflexivity);
+      repeat (destruct He as [<-|He]; [vm_compute in Hig; discriminate Hig|]); destruct He.
+Qed.
+
+Example sb_window : window_subgraph sbV 1 2 sbE = ([1; 0; 2]%N, [(0, 1); (1, 2)]%N) /\ k' sbV 1 2 2 sbP = 1.
+Proof. split; vm_compute; reflexivity. Qed.
